@@ -314,6 +314,14 @@ fn handle(line: &str) -> String {
                         let d = |n: &str| rpm::Dependency::eq(n, "1");
                         b = b.requires(d("xre")).provides(d("xpr")).obsoletes(d("xob")).conflicts(d("xco")).recommends(d("xre")).suggests(d("xsu")).enhances(d("xen")).supplements(d("xsu"));
                     }
+                    x if x.starts_with("dep_") => {
+                        let k = &x[4..];
+                        let d = rpm::Dependency::eq(format!("x{}", &k[..2]), "1");
+                        b = match k {
+                            "requires" => b.requires(d), "provides" => b.provides(d), "obsoletes" => b.obsoletes(d), "conflicts" => b.conflicts(d),
+                            "recommends" => b.recommends(d), "suggests" => b.suggests(d), "enhances" => b.enhances(d), "supplements" => b.supplements(d), _ => b,
+                        };
+                    }
                     "caps_first" => {
                         b = b.with_file(&src, rpm::FileOptions::new("/d/a").caps("cap_chown=ep")?)?;
                         b = b.with_file(&src, rpm::FileOptions::new("/d/b"))?;
@@ -433,6 +441,21 @@ fn handle(line: &str) -> String {
                             if got != want { bad.push(format!("{:?}", got).replace(' ', "")); }
                         }
                         Err(_) => bad.push("err".into()),
+                    }
+                }
+                x if x.starts_with("dep:") => {
+                    // one dependency of one kind, none of the others
+                    let kinds = ["requires", "provides", "obsoletes", "conflicts", "recommends", "suggests", "enhances", "supplements"];
+                    let k = kinds.iter().position(|n| *n == &x[4..]).unwrap_or(0);
+                    let d = dep(k, 0);
+                    b = match k { 0 => b.requires(d), 1 => b.provides(d), 2 => b.obsoletes(d), 3 => b.conflicts(d), 4 => b.recommends(d), 5 => b.suggests(d), 6 => b.enhances(d), _ => b.supplements(d) };
+                    let pkg = match b.build() { Ok(p) => p, Err(e) => return format!("build-err {:?}", e).replace(' ', "_") };
+                    let m = &pkg.metadata;
+                    let got = match k { 0 => m.get_requires(), 1 => m.get_provides(), 2 => m.get_obsoletes(), 3 => m.get_conflicts(), 4 => m.get_recommends(), 5 => m.get_suggests(), 6 => m.get_enhances(), _ => m.get_supplements() };
+                    match got {
+                        Ok(v) if v.iter().any(|d| *d == dep(k, 0)) => {}
+                        Ok(v) => bad.push(format!("kind{}:missing({}listed)", k, v.len())),
+                        Err(_) => bad.push(format!("kind{}:err", k)),
                     }
                 }
                 "deps" => {
